@@ -1,17 +1,656 @@
 package h
 
-// Finding is a property violation observed directly on the implementation by the oracle
-// (differential / property testing; used to validate the model and to find replays, never as the
-// proof).
+import (
+	"bytes"
+	"fmt"
+	"sort"
+
+	"github.com/sylabs/sif/v2/pkg/sif"
+)
+
+// The property oracle: evaluates the properties' predicates directly on what the real library
+// did, using the independent decoder of spec.go. This is differential / property testing. It
+// proves nothing; it validates the model and finds the concrete failing input (the replay) when a
+// proof obligation or the correspondence breaks (DESIGN.md 3.3).
+
+// Finding is a property violation observed on the implementation.
 type Finding struct {
 	Property string `json:"property"`
 	Case     int    `json:"case"`
-	Step     int    `json:"step"`
+	Step     int    `json:"step"` // 0 = creation/loading, k = after the k-th operation
 	What     string `json:"what"`
-	Class    string `json:"class,omitempty"` // known-finding class, if it falls in one
+	Class    string `json:"class,omitempty"` // known-finding class the input falls in, if any
+	Input    string `json:"input,omitempty"`
+}
+
+type oracleCtx struct {
+	c      *Case
+	out    []Finding
+	counts map[string]int
+}
+
+func (o *oracleCtx) add(prop string, step int, class, format string, a ...any) {
+	f := Finding{Property: prop, Case: o.c.ID, Step: step, What: fmt.Sprintf(format, a...), Class: class}
+	f.Input = o.c.Describe(step)
+	o.out = append(o.out, f)
+}
+
+func (o *oracleCtx) tick(name string) { o.counts[name]++ }
+
+// Describe renders the case up to and including step as a replayable description.
+func (c *Case) Describe(step int) string {
+	s := fmt.Sprintf("backend=%s ", c.Backend)
+	if c.Create != nil {
+		s += "create " + c.Create.Coq()
+	} else {
+		s += fmt.Sprintf("load %d bytes", len(c.LoadBytes))
+	}
+	for i := 0; i < step && i < len(c.Steps); i++ {
+		s += "\n  " + c.Steps[i].Op.Coq() + " -> " + c.Steps[i].Obs.Res
+	}
+	return s
+}
+
+func liveByID(img *SImage) map[uint32]int {
+	m := map[uint32]int{}
+	for i, d := range img.Descs {
+		if d.Used {
+			m[d.ID] = i
+		}
+	}
+	return m
+}
+
+func region(store []byte, d SDesc) ([]byte, bool) {
+	if d.Size == 0 {
+		return []byte{}, true
+	}
+	if d.Off < 0 || d.Size < 0 || d.Off+d.Size > int64(len(store)) {
+		return nil, false
+	}
+	return store[d.Off : d.Off+d.Size], true
+}
+
+// historyHasRawPartitionMeta: the known-finding class F7 (raw metadata bytes that decode as a
+// primary partition are not interpreted by the library).
+func (c *Case) hasRawPartitionMeta(upto int) bool {
+	raw := func(d DInput) bool {
+		return d.Type == DataPartition && d.MdSet && d.Md.Kind == MdRaw
+	}
+	if c.Create != nil {
+		for _, d := range c.Create.DIs {
+			if raw(d) {
+				return true
+			}
+		}
+	}
+	for i := 0; i < upto && i < len(c.Steps); i++ {
+		op := c.Steps[i].Op
+		if op.Kind == OpAdd && raw(op.DI) {
+			return true
+		}
+		if op.Kind == OpSetMeta && op.Md.Kind == MdRaw {
+			return true
+		}
+	}
+	return false
+}
+
+func excusedResult(res string) string {
+	switch res {
+	case "ETruncRange":
+		return "F4a"
+	case "ECustom":
+		return "F12"
+	}
+	return ""
+}
+
+// checkState evaluates the state predicates on one observation.
+func (o *oracleCtx) checkState(step int, ob Obs, res string) *SImage {
+	if !ob.HasMem {
+		return nil
+	}
+	img, err := DecodeImage(ob.Store)
+	if err != nil {
+		o.add("C11", step, "", "independent decoder cannot decode the image the library wrote: %v", err)
+		return nil
+	}
+	o.tick("state")
+	class := excusedResult(res)
+
+	// C08: the handle is what a fresh load of the bytes gives
+	f2, err := sif.LoadContainer(sif.NewBuffer(bytes.Clone(ob.Store)), sif.OptLoadWithCloseOnUnload(false))
+	if err != nil {
+		o.add("C08", step, class, "the image written cannot be reloaded: %v", err)
+	} else {
+		hb, rds, mids := sif.VerifRaw(f2)
+		var rcat []byte
+		for _, r := range rds {
+			rcat = append(rcat, r...)
+		}
+		if !bytes.Equal(hb, ob.Hdr) {
+			o.add("C08", step, class, "handle header differs from reloaded header (handle %x, reload %x)", diffAt(ob.Hdr, hb), diffAt(hb, ob.Hdr))
+		}
+		if !bytes.Equal(rcat, ob.Rds) {
+			o.add("C08", step, class, "handle descriptors differ from reloaded descriptors at byte %d", firstDiff(rcat, ob.Rds))
+		}
+		var ml [][2]uint32
+		for k, v := range mids {
+			ml = append(ml, [2]uint32{k, v})
+		}
+		sort.Slice(ml, func(i, j int) bool { return ml[i][0] < ml[j][0] })
+		if fmt.Sprint(ml) != fmt.Sprint(ob.MinIDs) {
+			// compare through what is observable: relative IDs of live objects
+			for _, d := range img.Descs {
+				if d.Used && lookup(ml, d.Group) != lookup(ob.MinIDs, d.Group) {
+					o.add("C08", step, class, "relative ID of object %d differs between handle (min %d) and reload (min %d)", d.ID, lookup(ob.MinIDs, d.Group), lookup(ml, d.Group))
+					break
+				}
+			}
+		}
+	}
+
+	// C02: invariants of the abstract image
+	ids := map[uint32]bool{}
+	unused, prim := int64(0), 0
+	var primArch [3]byte
+	for _, d := range img.Descs {
+		if !d.Used {
+			unused++
+			continue
+		}
+		if ids[d.ID] {
+			o.add("C02", step, o.classIDs(), "two live objects share ID %d", d.ID)
+		}
+		ids[d.ID] = true
+		if d.IsPrimary() {
+			prim++
+			copy(primArch[:], d.Extra[8:11])
+		}
+	}
+	if unused != img.H.Free || img.H.Total != int64(len(img.Descs)) {
+		o.add("C02", step, "", "free=%d but %d unused of %d", img.H.Free, unused, len(img.Descs))
+	}
+	f7 := ""
+	if o.c.hasRawPartitionMeta(step) {
+		f7 = "F7"
+	}
+	if prim > 1 {
+		o.add("C02", step, f7, "%d primary system partitions", prim)
+	} else if prim == 1 && img.H.Arch != primArch {
+		o.add("C02", step, f7, "header arch %q but primary partition arch %q", img.H.Arch[:2], primArch[:2])
+	} else if prim == 0 && string(img.H.Arch[:]) != "00\x00" {
+		o.add("C02", step, f7, "header arch %q with no primary partition", img.H.Arch[:2])
+	}
+
+	// C03: layout
+	if img.H.DescOff < 128 || img.H.DescSize < img.H.Total*DescSize || img.H.DescOff+img.H.DescSize > img.H.DataOff {
+		o.add("C03", step, "", "descriptor table [%d,+%d) not between header and data section at %d", img.H.DescOff, img.H.DescSize, img.H.DataOff)
+	}
+	var live []SDesc
+	for _, d := range img.Descs {
+		if d.Used {
+			live = append(live, d)
+		}
+	}
+	for i, d := range live {
+		if d.Off < img.H.DataOff || d.Size < 0 || d.Off+d.Size > img.H.DataOff+img.H.DataSize {
+			o.add("C03", step, class, "object %d [%d,+%d) outside the data section [%d,+%d)", d.ID, d.Off, d.Size, img.H.DataOff, img.H.DataSize)
+		}
+		if d.Size > 0 && d.Off+d.Size > int64(len(ob.Store)) {
+			o.add("C03", step, class, "object %d [%d,+%d) beyond the end of the file (%d)", d.ID, d.Off, d.Size, len(ob.Store))
+		}
+		for _, e := range live[i+1:] {
+			if d.Size > 0 && e.Size > 0 && d.Off < e.Off+e.Size && e.Off < d.Off+d.Size {
+				o.add("C03", step, "", "objects %d [%d,+%d) and %d [%d,+%d) overlap", d.ID, d.Off, d.Size, e.ID, e.Off, e.Size)
+			}
+		}
+	}
+	return img
+}
+
+func (o *oracleCtx) classIDs() string {
+	if o.c.ForeignIDs {
+		return "F5"
+	}
+	return ""
+}
+
+func lookup(m [][2]uint32, k uint32) uint32 {
+	for _, kv := range m {
+		if kv[0] == k {
+			return kv[1]
+		}
+	}
+	return 0
+}
+
+func firstDiff(a, b []byte) int {
+	n := min(len(a), len(b))
+	for i := 0; i < n; i++ {
+		if a[i] != b[i] {
+			return i
+		}
+	}
+	if len(a) != len(b) {
+		return n
+	}
+	return -1
+}
+
+func diffAt(a, b []byte) []byte {
+	i := firstDiff(a, b)
+	if i < 0 || i >= len(a) {
+		return nil
+	}
+	return a[i:min(len(a), i+8)]
+}
+
+// expectedTime is the modification time a successful operation must record.
+func expectedTime(pre *SImage, t TOpt, now int64) (int64, bool) {
+	switch t.Kind {
+	case TDeterministic:
+		return ZeroTime, true
+	case TExplicit:
+		return t.T, true
+	}
+	if pre != nil && pre.H.ID == [16]byte{} && pre.H.Ctime == ZeroTime && pre.H.Mtime == ZeroTime {
+		return ZeroTime, true
+	}
+	return now, true
+}
+
+// checkStep evaluates the transition predicates between two observations.
+func (o *oracleCtx) checkStep(step int, op Op, pre, post Obs, preImg, postImg *SImage) {
+	if op.Kind == OpReload || preImg == nil || postImg == nil {
+		return
+	}
+	o.tick("transition")
+	class := excusedResult(post.Res)
+
+	if post.Res != "Ok" {
+		// C02: a rejected operation changes nothing
+		if !bytes.Equal(pre.Store[:HdrSize], post.Store[:HdrSize]) {
+			o.add("C02", step, class, "rejected %s (%s) changed the header in the file", op.KindName(), post.Res)
+		}
+		a, b := tableBytes(pre.Store, preImg), tableBytes(post.Store, postImg)
+		if !bytes.Equal(a, b) {
+			o.add("C02", step, class, "rejected %s (%s) changed the descriptor table in the file", op.KindName(), post.Res)
+		}
+		if !bytes.Equal(pre.Hdr, post.Hdr) || !bytes.Equal(pre.Rds, post.Rds) || fmt.Sprint(pre.MinIDs) != fmt.Sprint(post.MinIDs) {
+			o.add("C02", step, class, "rejected %s (%s) changed the open handle", op.KindName(), post.Res)
+		}
+		for _, d := range preImg.Descs {
+			if !d.Used {
+				continue
+			}
+			x, ok1 := region(pre.Store, d)
+			y, ok2 := region(post.Store, d)
+			if ok1 && (!ok2 || !bytes.Equal(x, y)) {
+				o.add("C02", step, class, "rejected %s (%s) changed the content of object %d", op.KindName(), post.Res, d.ID)
+			}
+		}
+		return
+	}
+
+	// targets of the operation
+	target := map[uint32]bool{}
+	switch op.Kind {
+	case OpSetPrim:
+		target[op.ID] = true
+		for _, d := range preImg.Descs {
+			if d.Used && d.IsPrimary() {
+				target[d.ID] = true
+			}
+		}
+	case OpSetMeta, OpSetOCI:
+		target[op.ID] = true
+	}
+
+	// C03: bystanders are not disturbed; C02: a live object keeps ID, attributes, content
+	postLive := liveByID(postImg)
+	for i, d := range preImg.Descs {
+		if !d.Used || target[d.ID] {
+			continue
+		}
+		j, still := postLive[d.ID]
+		if !still {
+			if op.Kind != OpDelete {
+				o.add("C02", step, "", "%s removed object %d", op.KindName(), d.ID)
+			}
+			continue
+		}
+		if j != i {
+			o.add("C02", step, "", "object %d moved from slot %d to slot %d", d.ID, i, j)
+		}
+		dn, pn := d, postImg.Descs[j]
+		dn.UsedByte, pn.UsedByte = 1, 1 // any non-zero "used" byte reads as true and is rewritten as 1
+		if !bytes.Equal(EncodeDesc(dn), EncodeDesc(pn)) {
+			o.add("C03", step, "", "%s changed the descriptor of bystander object %d", op.KindName(), d.ID)
+		}
+		x, ok1 := region(pre.Store, d)
+		y, ok2 := region(post.Store, d)
+		if ok1 && (!ok2 || !bytes.Equal(x, y)) {
+			o.add("C03", step, "", "%s changed the content of bystander object %d", op.KindName(), d.ID)
+		}
+	}
+
+	// C02/C12: header modification time is the requested one
+	if want, ok := expectedTime(preImg, op.T, op.Now); ok && !(op.Kind == OpSetPrim && bytes.Equal(pre.Store, post.Store)) {
+		if postImg.H.Mtime != want {
+			o.add("C02", step, "", "%s recorded header modification time %d, requested %d", op.KindName(), postImg.H.Mtime, want)
+		}
+		if postImg.H.Ctime != preImg.H.Ctime || postImg.H.ID != preImg.H.ID || postImg.H.Launch != preImg.H.Launch {
+			o.add("C02", step, "", "%s changed creation time, ID or launch script", op.KindName())
+		}
+	}
+
+	switch op.Kind {
+	case OpAdd:
+		o.checkAdded(step, op.DI, pre, post, preImg, postImg, op.T, op.Now)
+	case OpDelete:
+		// C03: zeroing overwrites exactly the deleted objects; compaction ends the file at the
+		// last live object
+		if op.Zero {
+			for _, d := range preImg.Descs {
+				if _, still := postLive[d.ID]; d.Used && !still {
+					if y, ok := region(post.Store, d); ok && len(bytes.Trim(y, "\x00")) != 0 {
+						o.add("C03", step, "", "zeroing delete left data of object %d", d.ID)
+					}
+				}
+			}
+		}
+		if op.Compact {
+			end := postImg.H.DataOff
+			for _, d := range postImg.Descs {
+				if d.Used && d.Off+d.Size > end {
+					end = d.Off + d.Size
+				}
+			}
+			if int64(len(post.Store)) != end {
+				o.add("C03", step, "", "after compaction the file ends at %d, last live object ends at %d", len(post.Store), end)
+			}
+		}
+	case OpSetMeta, OpSetOCI, OpSetPrim:
+		// content of the target is never touched by a set operation
+		for id := range target {
+			if i, ok := liveByID(preImg)[id]; ok {
+				x, ok1 := region(pre.Store, preImg.Descs[i])
+				if j, ok := postLive[id]; ok {
+					y, ok2 := region(post.Store, postImg.Descs[j])
+					if ok1 && (!ok2 || !bytes.Equal(x, y)) {
+						o.add("C02", step, "", "%s changed the content of object %d", op.KindName(), id)
+					}
+				}
+			}
+		}
+	}
+}
+
+func tableBytes(store []byte, img *SImage) []byte {
+	a, b := img.H.DescOff, img.H.DescOff+img.H.DescSize
+	if a < 0 || b > int64(len(store)) || a > b {
+		return nil
+	}
+	return store[a:b]
+}
+
+func expectedExtra(d DInput) ([]byte, bool) {
+	md := d.EffMd()
+	out := make([]byte, 384)
+	switch md.Kind {
+	case MdPart:
+		b := make([]byte, 11)
+		putU32(b[0:], uint32(md.Fs))
+		putU32(b[4:], uint32(md.Pt))
+		copy(b[8:], ArchBytes(md.Arch))
+		copy(out, b)
+		return out, true
+	case MdRaw:
+		copy(out, md.Raw)
+		return out, true
+	case MdOCI:
+		copy(out, "sha256:"+Sha256Hex(d.Content))
+		return out, true
+	}
+	return nil, false
+}
+
+func putU32(b []byte, v uint32) {
+	b[0], b[1], b[2], b[3] = byte(v), byte(v>>8), byte(v>>16), byte(v>>24)
+}
+
+// checkAdded: C01 - the new object is read back exactly (expectation computed independently
+// from the descriptor input), C03 - placed at the requested alignment beyond every other object.
+func (o *oracleCtx) checkAdded(step int, di DInput, pre, post Obs, preImg, postImg *SImage, t TOpt, now int64) {
+	slot := -1
+	if preImg != nil {
+		for i, d := range preImg.Descs {
+			if !d.Used {
+				slot = i
+				break
+			}
+		}
+	}
+	if slot < 0 || slot >= len(postImg.Descs) {
+		o.add("C01", step, "", "add succeeded but no free slot existed")
+		return
+	}
+	if o.c.ForeignIDs {
+		return // the ID given to the new object is not slot+1-unique in this class (F5)
+	}
+	o.checkNewObject(step, di, slot, post, postImg, func() int64 {
+		w, _ := expectedTime(preImg, t, now)
+		return w
+	}())
+	nd := postImg.Descs[slot]
+	for _, d := range preImg.Descs {
+		if d.Used && d.Size > 0 && nd.Off < d.Off+d.Size {
+			o.add("C03", step, "", "new object %d placed at %d, before the end of live object %d [%d,+%d)", nd.ID, nd.Off, d.ID, d.Off, d.Size)
+		}
+	}
+}
+
+func (o *oracleCtx) checkNewObject(step int, di DInput, slot int, post Obs, postImg *SImage, t int64) {
+	o.tick("readback")
+	nd := postImg.Descs[slot]
+	bad := func(what string, got, want any) {
+		o.add("C01", step, "", "added object in slot %d: %s is %v, expected %v", slot, what, got, want)
+	}
+	if !nd.Used {
+		bad("used", nd.Used, true)
+		return
+	}
+	if nd.Type != di.Type {
+		bad("type", nd.Type, di.Type)
+	}
+	if nd.ID != uint32(slot+1) {
+		bad("ID", nd.ID, slot+1)
+	}
+	if nd.Group != di.EffGroup()|GroupMask {
+		bad("group", nd.Group, di.EffGroup()|GroupMask)
+	}
+	wantLink := uint32(0)
+	switch di.Link {
+	case LObject:
+		wantLink = di.LinkID
+	case LGroup:
+		wantLink = di.LinkID | GroupMask
+	}
+	if nd.Link != wantLink {
+		bad("link", nd.Link, wantLink)
+	}
+	if nd.Size != int64(len(di.Content)) {
+		bad("size", nd.Size, len(di.Content))
+	}
+	if got, ok := region(post.Store, nd); nd.Size > 0 && (!ok || !bytes.Equal(got, di.Content)) {
+		bad("content", fmt.Sprintf("%d bytes differing at %d", len(got), firstDiff(got, di.Content)), "the bytes given")
+	}
+	name := ""
+	if di.NameSet {
+		name = di.Name
+	}
+	var wantName [128]byte
+	copy(wantName[:], name)
+	if nd.Name != wantName {
+		bad("name", nd.NameString(), name)
+	}
+	wt := t
+	if di.TimeSet && di.Time != ZeroTime {
+		wt = di.Time
+	}
+	if nd.Ctime != wt || nd.Mtime != wt {
+		bad("times", fmt.Sprint(nd.Ctime, nd.Mtime), wt)
+	}
+	if nd.UID != 0 || nd.GID != 0 {
+		bad("uid/gid", fmt.Sprint(nd.UID, nd.GID), 0)
+	}
+	if want, ok := expectedExtra(di); ok && !bytes.Equal(nd.Extra[:], want) {
+		bad("metadata", fmt.Sprintf("%x...", nd.Extra[:16]), fmt.Sprintf("%x...", want[:16]))
+	}
+	if a := di.EffAlign(); a > 0 && nd.Off%int64(a) != 0 {
+		o.add("C03", step, "", "object %d at offset %d is not aligned to %d", nd.ID, nd.Off, a)
+	}
+}
+
+// checkCreate: C01 for the creation step.
+func (o *oracleCtx) checkCreate(img *SImage) {
+	co := o.c.Create
+	if co == nil || img == nil {
+		return
+	}
+	launch := ""
+	if co.LaunchSet {
+		launch = co.Launch
+	}
+	var wl [32]byte
+	copy(wl[:], launch)
+	if img.H.Launch != wl {
+		o.add("C01", 0, "", "launch script read back as %q, given %q", img.H.Launch[:], launch)
+	}
+	if img.H.ID != co.EffID {
+		o.add("C01", 0, "", "image ID read back as %x, given %x", img.H.ID, co.EffID)
+	}
+	if img.H.Ctime != co.EffTime || img.H.Mtime != co.EffTime {
+		o.add("C01", 0, "", "creation time read back as %d/%d, given %d", img.H.Ctime, img.H.Mtime, co.EffTime)
+	}
+	if img.H.Total != co.EffCap() {
+		o.add("C01", 0, "", "capacity %d, requested %d", img.H.Total, co.EffCap())
+	}
+	for i, di := range co.DIs {
+		if i < len(img.Descs) {
+			o.checkNewObject(0, di, i, o.c.InitObs, img, co.EffTime)
+		}
+	}
+}
+
+// checkQueries: C13 - recompute every query answer from the independently decoded image.
+func (o *oracleCtx) checkQueries(step int, qs []Query, ob Obs, img *SImage) {
+	if img == nil {
+		return
+	}
+	mids := img.MinIDs()
+	for _, q := range qs {
+		o.tick("query")
+		sels := q.Sels
+		if q.Kind == "data" {
+			sels = []Selector{{Kind: SID, N: int64(q.ID)}}
+		}
+		wantErr := ""
+		var want [][2]uint32
+		var wantDesc []SDesc
+		if img.H.Free == img.H.Total {
+			wantErr = "ENoObjects"
+		} else {
+		scan:
+			for _, d := range img.Descs {
+				if !d.Used {
+					continue
+				}
+				ok := true
+				for _, s := range sels {
+					m, e := SpecMatch(s, d)
+					if e != "" {
+						wantErr = e
+						break scan
+					}
+					if !m {
+						ok = false
+						break
+					}
+				}
+				if ok {
+					if q.Kind != "many" && len(want) == 1 {
+						wantErr = "EMultiple" // the single-object form stops at the second match
+						break scan
+					}
+					want = append(want, [2]uint32{d.ID, d.ID - mids[d.Group]})
+					wantDesc = append(wantDesc, d)
+				}
+			}
+		}
+		if wantErr == "" && q.Kind != "many" && len(want) == 0 {
+			wantErr = "ENotFound"
+		}
+		desc := fmt.Sprintf("%s %v", q.Kind, q.Coq())
+		// property-level expectation: a zero ID/group anywhere is an error (F8 when the code
+		// does not reach it)
+		propErr := ""
+		if img.H.Free != img.H.Total {
+			for _, s := range sels {
+				if _, e := SpecMatch(s, SDesc{}); e == "EInvalidObjectID" || e == "EInvalidGroupID" {
+					if s.Kind != SCustom {
+						propErr = e
+					}
+				}
+			}
+		}
+		switch {
+		case wantErr != "" || q.Err != "":
+			if wantErr != q.Err {
+				// multiple-found vs an error on a later descriptor: order of discovery
+				o.add("C13", step, "", "query %s answered %q, expected %q", desc, q.Err, wantErr)
+			}
+		case q.Kind == "data":
+			got, ok := region(ob.Store, wantDesc[0])
+			if !ok || !bytes.Equal(got, q.Bytes) {
+				o.add("C01", step, "", "GetData of object %d differs from the stored bytes", q.ID)
+			}
+		default:
+			if fmt.Sprint(want) != fmt.Sprint(q.IDs) {
+				o.add("C13", step, "", "query %s returned %v, expected %v", desc, q.IDs, want)
+			}
+		}
+		if propErr != "" && q.Err == "" {
+			o.add("C13", step, "F8", "query %s has a zero ID/group but returned a match list, not %s", desc, propErr)
+		}
+	}
 }
 
 // OracleHistory evaluates the history properties on the implementation's recorded observations.
 func OracleHistory(c *Case, dir string, counts map[string]int) []Finding {
-	return nil
+	o := &oracleCtx{c: c, counts: counts}
+	if c.Create == nil && len(c.LoadBytes) >= HdrSize {
+		// C11: a file whose magic or version differs from SIF v1 is refused
+		o.tick("magic-version")
+		h, _ := DecodeHeader(c.LoadBytes)
+		if (!bytes.Equal(h.Magic[:], Magic) || !bytes.Equal(h.Version[:], Version01)) && c.HasHandle {
+			o.add("C11", 0, "", "image with magic %q version %q was loaded (%d bytes: header %x)", h.Magic[:], h.Version[:], len(c.LoadBytes), c.LoadBytes[:HdrSize])
+		}
+	}
+	if !c.HasHandle || c.Hostile {
+		return o.out
+	}
+	preObs := c.InitObs
+	preImg := o.checkState(0, c.InitObs, c.InitObs.Res)
+	o.checkCreate(preImg)
+	o.checkQueries(0, c.InitQueries, c.InitObs, preImg)
+	for i, st := range c.Steps {
+		postImg := o.checkState(i+1, st.Obs, st.Obs.Res)
+		o.checkStep(i+1, st.Op, preObs, st.Obs, preImg, postImg)
+		o.checkQueries(i+1, st.Queries, st.Obs, postImg)
+		preObs, preImg = st.Obs, postImg
+	}
+	return o.out
 }
